@@ -139,6 +139,7 @@ func (p *Path) rtPanic(fr *frame, instr ssa.Instruction, msg string) {
 
 func (p *Path) visitInstr(fr *frame, instr ssa.Instruction) (ret bool) {
 	p.steps++
+	p.lastInstr, p.lastFrame = instr, fr
 	if p.steps > p.cfg.MaxSteps {
 		panic(pathEnd{"steps", fmt.Sprintf("step limit %d exceeded at %s", p.cfg.MaxSteps, fr.pos(instr))})
 	}
